@@ -185,7 +185,10 @@ def hexDecodeC (pol : Policy) (s : List Char) : CM HErr BGeom :=
 
 /-! ## GeoJSON: arbitrary `Geometry` values -/
 
-/-- A Go value of static type `interface{}`. -/
+/-- A Go value of static type `interface{}`.  This is a finite tree type; a CYCLIC Go value (a
+hand-built `[]interface{}` that contains itself) is represented by its unfolding to a depth beyond
+what the decoder inspects (four levels of arrays and the kind of the fifth-level elements): see
+`unfold` in Main.lean.  All theorems quantify over every `GoVal`, hence over every such unfolding. -/
 inductive GoVal where
   | nil
   | num (bits : UInt64)                              -- float64
